@@ -12,7 +12,7 @@ def check(ctx, rep):
         "every downstream requires every upstream (orientation, full product, no early exit); the job leaves "
         "the member set; nothing else is removed. R18.3 documented set terms: keep_only: members & set(R); "
         "keep_only_between: (starts ? downstream(starts) : members) & (ends ? upstream(ends) : members), "
-        "starts / ends added back under their own keep flag.")
+        "starts / ends added back under their own keep flag. R18.6 an argument that may be a generator is run through at most once before it has been copied into a collection.")
     rep.declined = ["'every path through j is re-linked and no other ordering appears' as a statement about "
                     "transitive closures over all DAGs"]
     rep.trusted = ["T8 set algebra"]
@@ -20,6 +20,8 @@ def check(ctx, rep):
     graphrules.queries(ctx, rep, "R18.q1", "R18.q2", "R18.q3", "R18.q4", "R18.q5", "R18.q6")
     from . import common
     p, r = ctx.prog, ctx.roles
-    funcs = [p.supplier(r.sched, n) for n in ('bypass_and_remove', 'keep_only', 'keep_only_between', 'remove')]
+    funcs = [p.supplier(r.sched, n) for n in ('bypass_and_remove', 'keep_only', 'keep_only_between', 'remove')] + \
+        [p.supplier(r.jobbase, 'requires')]      # the surgery re-links through requires()
     common.job_truthiness(ctx, rep, "R18.4", funcs)
     common.no_state_across_calls(ctx, rep, "R18.5", funcs)
+    common.params_consumed_once(ctx, rep, "R18.6", [ctx.prog.supplier(ctx.roles.sched, n) for n in ("keep_only", "keep_only_between", "bypass_and_remove", "update")])
